@@ -472,7 +472,7 @@ MODULES = {
     'C02': ['C02', 'C02Site', 'C02Parse'],
     'C03': ['C03', 'C03Wrappers'],
     'C05': ['C05', 'C05Parse'],
-    'C06': ['C06', 'C06Gen'],
+    'C06': ['C06', 'C06Gen', 'C06GenDispatch', 'C06GenPseudo'],
     'C07': ['C07', 'C07Parse'],
     'C09': ['C09', 'C09Rx', 'C09Compile', 'C09Compile2'],
     'C10': ['C10', 'C10Rx', 'C10Parse', 'C10Gen'],
@@ -489,7 +489,7 @@ AUDITS = {
     'C02': ['C02', 'C02Site', 'C02Parse'],
     'C03': ['C03', 'C03Wrappers'],
     'C05': ['C05', 'C05Parse'],
-    'C06': ['C06', 'C06Gen'],
+    'C06': ['C06', 'C06Gen', 'C06GenDispatch'],
     'C07': ['C07', 'C07Parse'],
     'C09': ['C09', 'C09Rx', 'C09Compile', 'C09Compile2'],
     'C10': ['C10', 'C10Rx', 'C10Parse', 'C10Gen'],
